@@ -381,12 +381,12 @@ pub fn vx_put_str<S: AsRef<str>>(b: &mut BytesMut, s: S)
 /// decimal digits of an unsigned integer (what Display writes), uninterpreted except through dec_digits_spec
 pub uninterp spec fn dec_text(n: nat) -> Seq<char>;
 #[verifier::external_body]
-pub fn vx_put_u64(b: &mut BytesMut, n: u64)
-    ensures bm_view(final(b)) == bm_view(old(b)) + vstd::utf8::encode_utf8(dec_text(n as nat))
+pub fn vx_put_u64(b: &mut BytesMut, n: &u64)
+    ensures bm_view(final(b)) == bm_view(old(b)) + vstd::utf8::encode_utf8(dec_text(*n as nat))
 { use std::fmt::Write; write!(b, "{}", n).unwrap() }
 #[verifier::external_body]
-pub fn vx_put_usize(b: &mut BytesMut, n: usize)
-    ensures bm_view(final(b)) == bm_view(old(b)) + vstd::utf8::encode_utf8(dec_text(n as nat))
+pub fn vx_put_usize(b: &mut BytesMut, n: &usize)
+    ensures bm_view(final(b)) == bm_view(old(b)) + vstd::utf8::encode_utf8(dec_text(*n as nat))
 { use std::fmt::Write; write!(b, "{}", n).unwrap() }
 pub fn vx_fmt_ok() -> (r: Result<(), std::fmt::Error>) ensures r is Ok { Ok(()) }
 /// N10 wrapper for `str::replace` with a char pattern: every occurrence of `c` becomes `to`
@@ -419,4 +419,19 @@ pub fn vx_start_bound<'a, T, R: core::ops::RangeBounds<T>>(r: &'a R) -> (b: core
 pub fn vx_end_bound<'a, T, R: core::ops::RangeBounds<T>>(r: &'a R) -> (b: core::ops::Bound<&'a T>)
     ensures b == vstd::std_specs::range::RangeBoundsSpec::spec_end_bound(r)
 { r.end_bound() }
+
+/// Display of the narrower unsigned integers (same uninterpreted decimal text)
+#[verifier::external_body]
+pub fn vx_put_u8d(b: &mut BytesMut, n: &u8) ensures bm_view(final(b)) == bm_view(old(b)) + vstd::utf8::encode_utf8(dec_text(*n as nat)) { use std::fmt::Write; write!(b, "{}", n).unwrap() }
+#[verifier::external_body]
+pub fn vx_put_u16(b: &mut BytesMut, n: &u16) ensures bm_view(final(b)) == bm_view(old(b)) + vstd::utf8::encode_utf8(dec_text(*n as nat)) { use std::fmt::Write; write!(b, "{}", n).unwrap() }
+#[verifier::external_body]
+pub fn vx_put_u32(b: &mut BytesMut, n: &u32) ensures bm_view(final(b)) == bm_view(old(b)) + vstd::utf8::encode_utf8(dec_text(*n as nat)) { use std::fmt::Write; write!(b, "{}", n).unwrap() }
+/// ASSUMED about Display of unsigned integers: a non-empty string of ASCII digits (so never a blank, LF, NUL, quote or backslash)
+pub broadcast axiom fn dec_text_digits(n: nat)
+    ensures (#[trigger] dec_text(n)).len() > 0, forall|i: int| 0 <= i < dec_text(n).len() ==> '0' <= #[trigger] dec_text(n)[i] && dec_text(n)[i] <= '9';
+
+/// N10 wrapper for `std::cmp::min` on u8 (generic over Ord in std)
+#[verifier::external_body]
+pub fn vx_min_u8(a: u8, b: u8) -> (r: u8) ensures r == (if a <= b { a } else { b }) { std::cmp::min(a, b) }
 }
